@@ -2,6 +2,7 @@
    independent at any population size.  Statements only. *)
 From Coq Require Import List ZArith Bool Sorted.
 From Ivv Require Import Timer.HeapModel Timer.HeapSpec Timer.HeapProofs.
+From Ivv Require Import Timer.RadixModel Timer.RadixSpec Timer.RadixArith Timer.RadixMem Timer.RadixProofs.
 Import ListNotations.
 Local Open Scope Z_scope.
 
@@ -103,4 +104,103 @@ Example C05_nonvacuous :
   | Ok s => (num s =? 2) && heap_ok (slot_array s) = true
   | _ => False
   end.
+Proof. vm_compute. reflexivity. Qed.
+
+(* ================= the radix tree that stores the heap slots =================
+   Timer/RadixModel.v models iv_timer_get_node (growth by one level, lazy allocation of
+   interior nodes and leaves), iv_timer_free_ratnode, iv_timer_radix_tree_remove_level,
+   iv_timer_deinit and the first_leaf/timer_root union over an explicit memory of 128-cell
+   nodes with calloc/free; slot pointers are addresses, and an access through an address in
+   a freed node is the error value RCrash EUseAfterFree.  HeapModel abstracts all this to a
+   finite map index -> timer. *)
+
+(* (a) path arithmetic: an index below 128^(depth+1) is determined by its digits (the child
+   numbers iv_timer_get_node follows), so distinct indices take distinct paths, and they end in
+   distinct slot addresses of the tree *)
+Theorem C05_radix_slots_distinct :
+  (forall d i j, 0 <= i < P (Z.of_nat d + 1) -> 0 <= j < P (Z.of_nat d + 1) ->
+     path d i = path d j -> i = j) /\
+  (forall rs na H, ShapeH rs na H ->
+     forall i i', 0 <= i -> i / NODES * NODES <= H -> 0 <= i' -> i' / NODES * NODES <= H ->
+       p_of na i = p_of na i' -> i = i').
+Proof. exact (conj path_inj slot_inj). Qed.
+Print Assumptions C05_radix_slots_distinct.
+
+(* (c) REFINEMENT, for every history of guarded register / unregister / run-timers with arbitrary
+   handler scripts: the radix-tree store never yields an error value, produces the same trace
+   (return code, fired timers, num_timers, rat_depth, numobjs and the slot array read through the
+   tree, after every operation) as the flat-map store, and ends in a state whose tree implements
+   exactly the flat map (flat_of = slots, same timer objects) -- so C05_register .. C05_history
+   transfer to the store with the real tree.  (One operation at a time from any related pair of
+   states: RadixProofs.radix_step_refines.) *)
+Theorem C05_radix_refines_heap :
+  forall sc ops,
+    rtrace sc ops rinit = htrace sc ops init /\ length (htrace sc ops init) = length ops /\
+    exists rs s, rrun_ops sc ops rinit = ROk rs /\ run_ops sc ops init = Ok s /\
+                 Refines rs s /\ HeapInv s /\ batch s = [] /\
+                 (forall p, PM.find p (flat_of rs) = PM.find p (slots s)) /\ tm (hs rs) = tm s.
+Proof. exact radix_refines_heap. Qed.
+Print Assumptions C05_radix_refines_heap.
+
+(* (d) iv_timer_unregister of any registered victim: although iv_timer_radix_tree_remove_level may
+   free nodes between the computation of the slot pointer p and its uses in pull_up / push_down,
+   no access goes through a freed node (nor NULL, nor a wild address): the outcome is ROk.  And no
+   error value at all (use-after-free, wild or NULL access, bad or double free, type confusion,
+   fuel) is reachable by any history. *)
+Theorem C05_radix_no_dangling_slot :
+  (forall rs s t, Refines rs s -> HeapInv s -> 1 <= tidx s t ->
+     exists rs' s', runregister rs t = ROk rs' /\ unregister s t = Ok s' /\ Refines rs' s' /\ HeapInv s') /\
+  (forall sc ops e, rrun_ops sc ops rinit <> RCrash e).
+Proof. exact (conj radix_unregister_no_dangling radix_no_error). Qed.
+Print Assumptions C05_radix_no_dangling_slot.
+
+(* (b), (e) after every history: the invariant (every live index addressable, depth minimal:
+   rat_depth = 0 or 128^rat_depth <= num_timers < 128^(rat_depth+1)); the calloc'ed nodes that are
+   live are exactly the nodes reachable from timer_root (no leak, no dangling child pointer); an
+   empty store has depth 0 and nothing allocated; iv_timer_deinit on the tree as it is (populated
+   or not) ends with depth 0, every calloc'ed node freed -- exactly once, a second free being the
+   error value EDoubleFree -- and timer_root = NULL. *)
+Theorem C05_radix_no_leak :
+  forall sc ops, exists rs,
+    rrun_ops sc ops rinit = ROk rs /\ RInv rs /\
+    (forall n, live_true rs n <-> n <> FIRST_LEAF /\ exists l, reach rs l n) /\
+    (rnum rs = 0 -> rdepth rs = 0 /\ all_freed rs) /\
+    exists rs', rdeinit rs = Good rs' /\ rdepth rs' = 0 /\ all_freed rs' /\ mget (mem rs') ROOT_CELL = CNull.
+Proof. exact radix_no_leak. Qed.
+Print Assumptions C05_radix_no_leak.
+
+(* in every state satisfying the invariant: the depth part of the monitor run on implementation
+   traces holds; `index >> ((rat_depth + 1) * 7)` in iv_timer_get_node is defined (count <= 28) as
+   long as num_timers < 2^28 ... *)
+Theorem C05_radix_depth_bounds :
+  forall rs, RInv rs ->
+    depth_mon (rnum rs) (rdepth rs) = true /\ (rnum rs < 2 ^ 28 -> shift_count rs <= 28).
+Proof. exact (fun rs I => conj (radix_depth_mon_ok rs I) (radix_shift_defined rs I)). Qed.
+Print Assumptions C05_radix_depth_bounds.
+
+(* ... but NOT for every int population: num_timers = 2^28 < INT_MAX satisfies the invariant only
+   with rat_depth = 4, and then the shift count is 35 >= 32 (undefined for a 32-bit int).  The
+   model computes in unbounded Z; populations >= 2^28 are outside the verified range. *)
+Theorem C05_radix_shift_refuted :
+  exists d n, 0 < d /\ P d <= n < P (d + 1) /\ n < 2 ^ 31 /\ 32 <= (d + 1) * SPLIT_BITS.
+Proof. exact radix_shift_undefined_witness. Qed.
+Print Assumptions C05_radix_shift_refuted.
+
+(* non-vacuity: 130 registrations (the tree grows to depth 1 at index 128 and allocates a second
+   leaf), then 4 unregistrations (first, interior, last, root) -- the third takes num_timers from 128
+   to 127: remove_level frees the root and the second leaf, and slot 1's pointer is used afterwards.
+   The two models agree on the whole trace; every node allocated was freed. *)
+Example C05_radix_nonvacuous :
+  let regs := map (fun i => OAct (AReg (Pos.of_nat i) (Z.of_nat ((7 * i) mod 50)))) (seq 1 130) in
+  let unregs := map (fun i => OAct (AUnreg (Pos.of_nat i))) [1; 64; 130; 2]%nat in
+  (match rrun_ops no_scripts regs rinit with
+   | ROk rs => (rdepth rs =? 1) && (rnum rs =? 130) && (count_nodes rs =? 3) && (nalloc rs =? 2) && (nfree rs =? 0)
+   | _ => false
+   end) &&
+  (match rrun_ops no_scripts (regs ++ unregs) rinit with
+   | ROk rs => (rdepth rs =? 0) && (rnum rs =? 126) && (count_nodes rs =? 1) && (nalloc rs =? 2) && (nfree rs =? 2)
+               && heap_ok (slot_array (rabs rs))
+   | _ => false
+   end) &&
+  (length (rtrace no_scripts (regs ++ unregs) rinit) =? 134)%nat = true.
 Proof. vm_compute. reflexivity. Qed.
